@@ -75,6 +75,17 @@ def run(ctx):
             for k in mro for be, b in zip(k.base_exprs, k.bases) if b is None)
         if unresolved_base or any(k.own_method("__getattr__") is not None for k in mro):
             continue  # attributes may come from a base we cannot see / dynamic lookup
+        # a mix-in: calls super().m() although nothing in its own MRO defines m
+        is_mixin = False
+        for f in c.methods.values():
+            for call in walk_shallow(f, include_self=False):
+                if isinstance(call, ast.Call):
+                    ch = attr_chain(call.func)
+                    if ch and ch[0] == "super()" and len(ch) == 2 and not any(ch[1] in k.methods for k in mro[1:]) and ch[1] not in ("__init__",):
+                        is_mixin = True
+        if is_mixin:
+            ctx.note(f"R-ATTR-DEFINED: {c.name} is a mix-in (super() calls outside its own MRO); its attributes come from the class it is mixed into")
+            continue
         defined = set()
         for k in mro:
             defined |= set(k.methods) | set(k.attrs) | set(k.properties)
@@ -109,6 +120,19 @@ def run(ctx):
                         guarded = True
                     p = par
                 if guarded:
+                    continue
+                # dead code under a constant-false guard
+                dead = False
+                p = node
+                while p is not None and p is not f:
+                    par = getattr(p, "_parent", None)
+                    if isinstance(par, (ast.If, ast.While)) and any(p is s_ or any(p is w for w in ast.walk(s_)) for s_ in par.body):
+                        t = par.test
+                        first = t.values[0] if isinstance(t, ast.BoolOp) and isinstance(t.op, ast.And) else t
+                        if isinstance(first, ast.Constant) and not first.value:
+                            dead = True
+                    p = par
+                if dead:
                     continue
                 ok = a in defined or a2 in defined
                 why = ""
